@@ -56,7 +56,7 @@ AnalyseCase(ev) ==
       pts == ev.pts
       bb == BBox(In)
       cells == IF ps = 2 /\ rect THEN {<<2 * i + 1, 2 * j + 1>> : i \in bb[1]..(bb[3] - 1), j \in bb[2]..(bb[4] - 1)} ELSE {}   \* only the cell-exact (C02) clauses need them
-  IN [ light |-> ("light" \in DOMAIN ev), subj |-> ev.subj, clip |-> ev.clip, emb |-> ev.emb, ps |-> ps, pts |-> pts, gp |-> gp, rect |-> rect /\ X = <<>>,
+  IN [ loose |-> ("loose" \in DOMAIN ev), light |-> ("light" \in DOMAIN ev), subj |-> ev.subj, clip |-> ev.clip, emb |-> ev.emb, ps |-> ps, pts |-> pts, gp |-> gp, rect |-> rect /\ X = <<>>,
        bb |-> IF X = <<>> THEN bb ELSE <<bb[1], Min2(bb[2], CHOOSE v \in {X[i][2] : i \in 1..Len(X)} : \A i \in 1..Len(X) : v <= X[i][2]),
                                          CHOOSE v \in {X[i][3] : i \in 1..Len(X)} : \A i \in 1..Len(X) : v >= X[i][3],
                                          Max2(bb[4], CHOOSE v \in {X[i][4] : i \in 1..Len(X)} : \A i \in 1..Len(X) : v >= X[i][4])>>,
@@ -87,7 +87,7 @@ AnalyseOut(ev) ==
        struct |-> lat => (StructOK(P) /\ Len(P) = ev.n),
        zero |-> heavy /\ HasZeroArea(P), spike |-> heavy /\ HasSpike(P), coll |-> heavy /\ HasCollinear(P),
        cross |-> heavy /\ HasCrossing(P), or0 |-> heavy => OrientOK(P, 0), or1 |-> heavy => OrientOK(P, 1),
-       touch |-> heavy /\ Touching(P),
+       touch |-> (heavy \/ (lat /\ cs.loose)) /\ Touching(P),
        far |-> IF heavy THEN {k \in 1..Len(P) : \E i \in 1..Len(P[k]) :
                               \* m = 1: farther than 2 units; scaled rectilinear input: a lattice vertex must lie ON an input edge;
                               \* scaled general-position input: farther than 1 lattice unit (= m >= 3 units) is certainly farther than 2 units
@@ -163,18 +163,36 @@ TTree ==
   /\ LET a == outs[Ev.k]  nodes == Ev.nodes  par == Ev.par  rs == Ev.rs
          N == Len(nodes)
          lvl[i \in 1..N] == IF par[i] = 0 THEN 1 ELSE 1 + lvl[par[i]]
-         judge == (cs.gp \/ (cs.rect /\ cs.sp2)) /\ a.lat
+         RingsTouch(P, Q) == \E x \in 1..Len(P) : \E y \in 1..Len(Q) : SegMeet(<<P[x], Nxt(P, x)>>, <<Q[y], Nxt(Q, y)>>)
+         \* "loose" cases: arbitrary random polygons, no input certificate.  The tree's own consistency (orientation by level, children
+         \* inside parents, siblings apart, level = containment depth) is a statement about the OUTPUT and is well defined whenever the
+         \* output rings are simple and pairwise apart, which TLC decides here on the rings themselves.  Orientation and area are NOT judged
+         \* there: without a clearance certificate a sliver thinner than the rounding error may legitimately come out with either sign
+         \* (seen: a 1.5-unit sliver of negative area at the top level of a Difference)
+         apart == ~a.touch /\ SameRings(a.paths, nodes)        \* the tree's rings are the paths' rings, whose Touching was decided once per distinct output
+         judge == a.lat /\ (cs.gp \/ (cs.rect /\ cs.sp2))
+         judgeL == a.lat /\ cs.loose /\ ~judge /\ N > 0 /\ apart
          \* nodes whose level differs from their containment depth, and the class of known finding S13: each of them shares a boundary
          \* point with a ring that contains it (an island touching the hole it lies in is attached to the wrong parent)
          mis == {i \in 1..N : Depth(nodes, i) + 1 # lvl[i]}
-         RingsTouch(P, Q) == \E x \in 1..Len(P) : \E y \in 1..Len(Q) : SegMeet(<<P[x], Nxt(P, x)>>, <<Q[y], Nxt(Q, y)>>)
          touchClass == mis # {} /\ \A i \in mis : \E j \in 1..N : j # i /\ InsideRing(nodes[i], nodes[j]) /\ RingsTouch(nodes[i], nodes[j])
+         \* class of known finding S15: rectilinear input; every misplaced node is a hole at the top level that lies strictly inside (touching nothing)
+         \* another ring (seen for unions of several overlapping rectangles of mixed orientation with coincident horizontal edges)
+         HoleAtTop(i) == (par[i] = 0) /\ ((Area2(nodes[i]) < 0) = (rs = 0))
+         TouchesNone(i) == \A j \in 1..N : (j = i) \/ ~RingsTouch(nodes[i], nodes[j])
+         InsideOnLine(i) == \E j \in 1..N : (j # i) /\ InsideRing(nodes[i], nodes[j])
+         horzClass == cs.rect /\ (mis # {}) /\ (\A i \in mis : HoleAtTop(i) /\ TouchesNone(i) /\ InsideOnLine(i))
      IN /\ Chk(Ev.ok = 1, "C11", "execute_returned_false", Ev.k)
         /\ a.lat => Chk(SameRings(a.paths, nodes), "C04", "tree_paths_differ", Ev.k)
         /\ Chk(Ev.openeq = 1, "C04", "open_paths_differ", Ev.k)
+        /\ judgeL =>
+             /\ Chk(\A i \in 1..N : par[i] # 0 => InsideRing(nodes[i], nodes[par[i]]), "C04", "child_not_in_parent", Ev.k)
+             /\ Chk(\A i \in 1..N : \A j \in 1..N : (i # j /\ par[i] = par[j]) => ~InsideRing(nodes[i], nodes[j]), "C04", "inside_sibling", Ev.k)
+             /\ Chk(mis = {}, "C04", "level_vs_containment", Ev.k)
         /\ judge =>
              /\ Chk(Area2Set(nodes) = a.area2, "C04", "area", Ev.k)
              /\ IF touchClass THEN Report("C04", "nesting_wrong_for_ring_touching_its_container", Ev.k)
+                ELSE IF horzClass THEN Report("C04", "rectilinear_hole_left_at_top_level", Ev.k)
                 ELSE
                   /\ Chk(\A i \in 1..N : (Area2(nodes[i]) > 0) = ((lvl[i] % 2 = 1) = (rs = 0)), "C04", "level_orientation", Ev.k)
                   /\ Chk(\A i \in 1..N : par[i] # 0 => InsideRing(nodes[i], nodes[par[i]]), "C04", "child_not_in_parent", Ev.k)
